@@ -9,6 +9,12 @@ import (
 
 //verif:guarded Manager mu reservedPorts usedPorts freePorts
 
+// C16 "mutexes around every shared map": every method of these types (and every
+// function literal inside them), whether or not it has a contract of its own,
+// is swept for accesses to the guarded fields without the lock.
+//
+//verif:sweep-type Manager props=C16 kinds=lock
+
 // Monitor invariant of the port table (C09: "no two live proxies own the same
 // port"; "accounting equals what is bound"): a port is never free and used at
 // once, and every used port has a context.
